@@ -7,7 +7,7 @@
    paragraphs and is a fixed point. *)
 From Coq Require Import String List NArith ZArith Bool.
 From J5V.lib Require Import Text Outcome GoExpr.
-From J5V.model Require Import BclLexer BclParser BclFmt BclCli.
+From J5V.model Require Import BclLexer BclParser BclFmt BclCli BclFmtAligned.
 From J5V.proofs Require Import BclPosProofs BclLexerProofs BclParserProofs BclFmtProofs BclFmtLitProofs BclReflowProofs BclLexLitProofs BclFmtSeqProofs BclFragWfProofs BclFmtLineProofs BclWalkBackProofs BclFmtFileProofs BclDescGapProofs BclFmtRoundProofs BclFmtIdemProofs BclDocProofs BclUtf8Proofs BclRuneClosedProofs BclFmtBytesProofs BclDocBytesProofs BclCliProofs BclIdentExactProofs BclFmtGenProofs BclFmtGenAllProofs BclFmtGenAll2Proofs BclFmtGenAll3Proofs BclFmtDiffsIdemProofs.
 (* after the proofs: doc_of / value_doc / tag_doc below are the declarative ones of model/BclDoc.v *)
 From J5V.model Require Import BclDoc.
